@@ -2261,11 +2261,17 @@ class VM:
             # Valid indices are integer strings in range [0, 2^32-2]
             try:
                 idx = int(key_str)
-                if idx >= 0 and str(idx) == key_str:
+            except ValueError:
+                idx = -1
+            if idx >= 0 and str(idx) == key_str:
+                try:
                     obj.set_index(idx, value)
-                    return
-            except (ValueError, IndexError):
-                pass
+                except IndexError:
+                    # Stricter mode: arrays have no holes, only appending at the end grows them
+                    raise JSTypeError(
+                        f"Cannot set index {idx} beyond the end of an array of length {obj.length}"
+                    )
+                return
             # If key looks like a number but isn't a valid integer index, throw
             # This includes NaN, Infinity, -Infinity, floats like "1.2"
             invalid_keys = ("NaN", "Infinity", "-Infinity")
